@@ -27,6 +27,10 @@ import RedisVerif.Driver.C01
           (bulk strings, command name first), via the entry point of the given frame class, on the
           shards of the last M7NEW: hex of the reply bytes | outside | crash | unmapped
           (replies whose order is unspecified — KEYS, HVALS — are sorted before encoding)
+    SRVC <now-ms> <k> (<n> <arg>*){k}               → ONE CONNECTION carrying the pipeline of k frames
+          (`Props/ServerConn.lean`, `node_end_to_end`: whatever the read segmentation, the partial
+          writes and the batching configuration, the written byte stream is the concatenation of the
+          frames' replies): hex of that byte stream (canonical order inside unordered replies)
     M7EVICT <now-ms>                                → evict    (the TTL tick: every shard adopts the time)
     M7DUMP <now-ms>                                 → visible keyspace (C01 dump syntax) | keys=[what KEYS * lists]
 -/
@@ -283,6 +287,25 @@ def srvStep (R : Routes) (cls : FrameClass) (st : Shards Redis.Entry) (now : Nat
     | none => (r.1, shown)
   | .error _ => (r.1, shown)
 
+def parseSrvC : P (Nat × List (List Bytes)) := do
+  expect "SRVC"
+  let now ← nat
+  let k ← nat
+  let fs ← repeatP k (do let n ← nat; repeatP n bytesTok)
+  pure (now, fs)
+
+/-- the frames of one connection, one after the other on the generic path (what `Conn.run` hands the
+    executor for a well-formed pipeline), replies concatenated -/
+def srvConn (R : Routes) (now : Nat) : Shards Redis.Entry → List Server.Frame → Shards Redis.Entry × Option String
+  | st, [] => (st, some "")
+  | st, f :: fs =>
+    let r := srvStep R .generic st now f
+    match r.2.toList with
+    | 'x' :: hexDigits =>
+      let t := srvConn R now r.1 fs
+      (t.1, t.2.map (String.ofList hexDigits ++ ·))
+    | _ => (r.1, none)
+
 def parseM7 : P (Nat × Redis.Cmd) := do
   expect "M7"
   let now ← nat
@@ -321,6 +344,12 @@ def step (d : DState) (line : String) : DState × String :=
       let home : Redis.State := (dedupSorted (sortNat (d.st7.flatMap NMap.keys))).filterMap (fun k =>
         (NMap.get (shard d.st7 (d.R.bytes k)) k).map (fun e => (k, e)))
       (d, C01.showDump home t ++ " | keys=" ++ "[" ++ ",".intercalate (all.map showKey) ++ "]")
+    | none => (d, "bad-op")
+  | "SRVC" :: _ =>
+    match runP parseSrvC line with
+    | some (now, fs) =>
+      let r := srvConn d.R now d.st7 fs
+      ({ d with st7 := r.1 }, match r.2 with | some h => "x" ++ h | none => "not-answered")
     | none => (d, "bad-op")
   | "SRV" :: _ =>
     match runP parseSrv line with
